@@ -20,7 +20,7 @@ THEOREMS = [
     'Ndn.C14.loop_never_accepted', 'Ndn.C14.construct_refuses', 'Ndn.C14.caught_exceptions',
     # C14 x C12 (Props/C14Lvs.lean): real names, allowed := Checker.check of a loader-accepted LVS model
     'Ndn.C14.allowed_iff_schema_link', 'Ndn.C14.validate_sound_lvs', 'Ndn.C14.validate_complete_lvs',
-    'Ndn.C14.verdict_iff_chain_lvs', 'Ndn.C14.system_verdict_iff_chain_lvs', 'Ndn.C14.lvs_chain_keys_matched',
+    'Ndn.C14.verdict_iff_chain_lvs', 'Ndn.C14.verdict_iff_chain_compiled', 'Ndn.C14.system_verdict_iff_chain_lvs', 'Ndn.C14.lvs_chain_keys_matched',
     'Ndn.C14.chain_never_through_unmatched_key', 'Ndn.C14.unmatched_key_never_accepted', 'Ndn.C14.root_of_trust_spec',
     'Ndn.C14.construct_refuses_lvs', 'Ndn.C14.construct_refuses_missing_fns_lvs',
 ]
